@@ -154,6 +154,66 @@ def scenario(x, p):
                     'anything is written', False)
 
 
+def cli(x, p):
+    """Commands that write over an existing file, through tool.main, with
+    input that makes producing the cart fail; plus the same commands with
+    good input (the destination then holds the new cart)."""
+    from props import clikit
+    cmd = x.choice('cmd', ['luafmt --overwrite', 'luafmt', 'luamin',
+                           'build', 'build --lua-minify'])
+    bad = x.choice('input', ['good', 'unknown syntax', 'junk tail',
+                             'unlexable'])
+    codes = {'good': b'x=1\nif (x) y=2\n',
+             'unknown syntax': b'x=1\na |= 1\ny=2\n',
+             'junk tail': b'x=1\nfoo bar\n',
+             'unlexable': b'x="abc\ny=2\n'}
+    code = codes[bad]
+    old = clikit.p8_text(b'old=1\n')
+    files = {}
+    if cmd.startswith('luafmt') or cmd == 'luamin':
+        files['/w/in.p8'] = clikit.p8_text(code)
+        if cmd == 'luafmt --overwrite':
+            dest = '/w/in.p8'
+            argv = ['luafmt', '--overwrite', '/w/in.p8']
+        else:
+            dest = '/w/in_fmt.p8'
+            files[dest] = old
+            argv = [cmd, '/w/in.p8']
+    else:
+        files['/w/main.lua'] = code
+        dest = '/w/out.p8'
+        files[dest] = old
+        argv = cmd.split(' ') + ['--lua', '/w/main.lua', dest]
+    before = files[dest]
+    fs = clikit.MemFS(x, files)
+    rc, exc = clikit.run_main(argv)
+    x.out('rc', repr(rc))
+    x.out('exc', repr(exc)[:100])
+    wrote = dest in fs.opened_for_write
+    x.tag('%s / %s / %s' % (cmd, bad, 'written' if wrote else 'not written'))
+    if exc is not None or rc != 0:
+        x.check('a failed command leaves the destination exactly as it was',
+                And(not wrote, fs.files.get(dest) == before))
+        x.check('a failed command creates no other file',
+                len(fs.opened_for_write) == 0)
+    if bad == 'good':
+        x.check('with good input the command succeeds and writes the '
+                'destination', And(exc is None, rc == 0, wrote))
+    if wrote:
+        # whatever was written is a complete, loadable cart holding all of
+        # the code's tokens (never a shortened program)
+        got = clikit.lua_of(fs.files[dest])
+        from pico8.lua import lexer
+
+        def sig(text):
+            lx = lexer.Lexer(version=8)
+            lx.process_lines([text])
+            return [type(t).__name__ for t in lx.tokens if not isinstance(
+                t, (lexer.TokSpace, lexer.TokNewline, lexer.TokComment))]
+        x.check('a written destination holds every token of the code',
+                sig(got) == sig(code))
+
+
 Q = {'_budget': 1200}
 HARNESSES = [
     Harness('scenario', scenario,
@@ -167,4 +227,5 @@ HARNESSES = [
                 _budget=3000),
                       dict(Q, fmt='.p8.png', kmax=3, faults=[
                           'none', 'write', 'luawriter', 'section', 'png'])]),
+    Harness('cli', cli, quick=[Q]),
 ]
